@@ -84,6 +84,12 @@ struct Case {
     std::string kind = "general", shape = "inorder", anchorKind = "root";
     int mainDepth = 0;
     bool revalidateDates = false, reorderFirst = false;
+    // ---- history mode (c03_crl_history): several validations against one trust store and one CRL cache
+    bool history = false;
+    bool appTriesPathCAs = false;        // when loading a CRL the application also tries the genuine CA certificates it knows
+    std::vector<Crl> altCrls;            // CRLs the application may load later (replace the same-issuer CRL in the cache)
+    struct Step { std::vector<int> chain; std::string what; int crlAction = 0; int altIdx = 0; bool revalidateDates = false, reorderFirst = false; };
+    std::vector<Step> steps;             // crlAction before the step: 0 none, 1 re-load the current CRL, 2 load altCrls[altIdx]
 };
 
 // ------------------------------------------------------------------------------------------------ helpers
@@ -144,6 +150,7 @@ static inline bool revoked_strict(const Case &cs, const Node &c)
         bool can = false;
         for (int a : cs.anchors) if (cs.n[(size_t) a].key == r.signKey) can = true;
         for (int a : cs.chain) if (cs.n[(size_t) a].key == r.signKey) can = true;
+        if (cs.history) for (auto &x : cs.n) if (x.key == r.signKey) can = true;   // an earlier validation may have presented it
         if (can) return true;
     }
     return false;
@@ -768,8 +775,109 @@ struct Gen {
         }
     }
 
+    // History of validations over one CRL cache.  The revocation verdict of a certificate must not depend on what was validated
+    // before: failing validations through a same-name impostor / wrong-key parent, chains with and without the issuer presented,
+    // CRL re-loads and replacements are interleaved, and the last steps tend to present the (revoked) leaf again.
+    void gen_history()
+    {
+        cs.kind = "crl-history";
+        cs.history = true;
+        unsigned dr = (unsigned) t.below(100);
+        build_universe(dr < 45 ? 0 : dr < 80 ? 1 : 2);
+        int last = mpLen() - 1;
+        int L = mainPath[0], I = mainPath[1], r0 = mainPath[(size_t) last];
+        if (kkind(cs.n[(size_t) I].key) == mint::K_ED25519)
+        {
+            // MatrixSSL cannot parse Ed25519-signed CRLs; give the CRL issuer an ECDSA key so that the history is about a usable CRL
+            int k = key_of_kind(mint::K_P256);
+            if (k >= 0) { cs.n[(size_t) I].key = k; resign_children_of(I); }
+        }
+        int G = add("GoodLeaf", I, false);
+        // impostor: the issuer's subject name, its own key, self-made signature
+        {
+            const Node orig = cs.n[(size_t) I];
+            Node x = orig;
+            x.id = (int) cs.n.size(); x.role = "Impostor"; x.key = new_key(); x.signKey = x.key; x.akiKey = x.key;
+            x.serial = new_serial(x.id); x.sig = SIG_OK; x.sigSrc = -1; x.parent = -1;
+            unsigned v = (unsigned) t.below(8);
+            if (v == 6) x.ku = mint::KU_CERTSIGN | mint::KU_DIGSIG;         // impostor without cRLSign
+            if (v == 7) x.selfIssued = false;
+            cs.n.push_back(x);
+            twin = x.id; twinOf = I;
+        }
+        int wrongCa = foreign.empty() ? add("ForeignInter", r0, true) : foreign[0];
+        // trust store
+        std::vector<int> an(extraRoots);
+        an.insert(an.begin() + (long) t.below(an.size() + 1), r0);
+        cs.anchorKind = an.size() > 1 ? "root-among-others" : "root";
+        if (last >= 2)
+        {
+            unsigned a = (unsigned) t.below(100);
+            if (a < 35) { an.insert(an.begin() + (long) t.below(an.size() + 1), I); cs.anchorKind = "root-and-issuer"; }
+            else if (a < 50) { an = { I }; cs.anchorKind = "issuer-only"; }
+        }
+        cs.anchors = an;
+        cs.appTriesPathCAs = !t.chance(2, 5);
+        // the CRL of L's issuer
+        {
+            Crl r; r.issuer = cs.n[(size_t) I].subj; r.signKey = cs.n[(size_t) I].key; r.hash = good_hash(); r.extraSerials = (int) t.below(3); r.aki = t.coin();
+            bool lists = !t.chance(1, 7);
+            if (lists) r.revokedNodes.push_back(L);
+            if (t.chance(1, 10)) r.revokedNodes.push_back(G);
+            unsigned v = (unsigned) t.below(16);
+            const char *cls = lists ? "revoked" : "crl-clean";
+            if (v == 12) { r.sigBad = true; cls = "crl-forged"; }
+            else if (v == 13) { r.signKey = cs.n[(size_t) twin].key; cls = "crl-signed-by-impostor"; }
+            else if (v == 14) { r.next = -(int64_t) (3 + t.below(100)) * DAY; cls = "crl-expired"; }
+            else if (v == 15) { cs.n[(size_t) I].ku = mint::KU_CERTSIGN | mint::KU_DIGSIG; cls = "crl-issuer-without-crlsign"; }
+            cs.crls.push_back(r);
+            note(cls, 0);
+            Crl a; a.issuer = r.issuer; a.signKey = cs.n[(size_t) I].key; a.hash = good_hash(); a.extraSerials = 1; a.aki = r.aki;
+            unsigned w = (unsigned) t.below(3);
+            if (w == 1) a.revokedNodes.push_back(G);
+            if (w == 2) { a.revokedNodes.push_back(L); a.revokedNodes.push_back(G); }
+            cs.altCrls.push_back(a);
+        }
+        // steps
+        std::vector<int> above;                                                      // genuine CAs above the issuer, root excluded
+        if (last >= 2) above.assign(mainPath.begin() + 2, mainPath.begin() + last);
+        int nsteps = 2 + (int) t.below(3);
+        for (int k = 0; k < nsteps; k++)
+        {
+            Case::Step st;
+            unsigned c = (unsigned) t.below(100);
+            bool lastStep = k == nsteps - 1;
+            if (lastStep && k > 0) c = c % 40;          // finish on the leaf again: alone or with its genuine parents
+            int subj = L;
+            std::vector<int> ch;
+            if (c < 22) { ch = { L }; st.what = "leaf-alone"; }
+            else if (c < 40) { ch = { L }; if (last >= 2) { ch.push_back(I); ch.insert(ch.end(), above.begin(), above.end()); } else ch.push_back(r0); st.what = "leaf+genuine-parents"; }
+            else if (c < 58) { ch = { L, twin }; st.what = "leaf+impostor"; }
+            else if (c < 66) { ch = { L, twin }; ch.insert(ch.end(), above.begin(), above.end()); if (t.coin()) ch.push_back(r0); st.what = "leaf+impostor+rest"; }
+            else if (c < 74) { ch = { L, wrongCa }; st.what = "leaf+wrong-key-parent"; }
+            else if (c < 80) { ch = { L, I, twin }; st.what = "leaf+issuer+impostor"; }
+            else if (c < 88) { subj = G; ch = { G }; if (last >= 2 && t.coin()) ch.push_back(I); st.what = "sibling"; }
+            else if (c < 96) { subj = G; ch = { G, twin }; st.what = "sibling+impostor"; }
+            else { ch = { L, twin, I }; st.what = "leaf+impostor+issuer"; }
+            (void) subj;
+            while (ch.size() > 5) ch.pop_back();
+            st.chain = ch;
+            if (k > 0)
+            {
+                unsigned a = (unsigned) t.below(100);
+                st.crlAction = a < 76 ? 0 : a < 88 ? 1 : 2;
+            }
+            unsigned o = (unsigned) t.u8();
+            st.revalidateDates = (o & 7) == 7;
+            st.reorderFirst = (o & 0x38) == 0x38;
+            cs.steps.push_back(st);
+        }
+        cs.chain = cs.steps[0].chain;
+    }
+
     Case run(int forcedKind)
     {
+        if (forcedKind == 4) { gen_history(); return cs; }
         unsigned k = (unsigned) t.below(100);
         int kind = forcedKind >= 0 ? forcedKind : (k < 70 ? 0 : k < 80 ? 1 : k < 92 ? 2 : 3);
         switch (kind)
